@@ -384,4 +384,110 @@ theorem step_not_end (tr : Trace) (l : Label) (o : Obs) (c : Clause)
   obtain ⟨m, _, hf⟩ := fires_of_step h
   refine ⟨?_, ?_, ?_⟩ <;> intro x hx <;> subst hx <;> exact hf
 
+/-! ## C01 — a call completes exactly once, with its own response or an error; never blocked after
+termination; calls started after termination fail with the closed-connection error -/
+
+/-- A finished result is final: once call `n` is listed as finished with `r`, it stays listed with
+`r` (never a second result — c01Twice —, never withdrawn — c01Lost). -/
+def P_c01Final (tr : Trace) : Prop :=
+  ∀ i j n r, i ≤ j → j < tr.length → FTok.call n r ∈ (obsAt tr i).fins → finCall (obsAt tr j).fins n = some r
+
+/-- A call that completed with a response completed with a response the peer sent to that very call
+(same id, payload intact). -/
+def P_c01Own (tr : Trace) : Prop :=
+  ∀ j, j < tr.length → ∀ n pl, FTok.call n (.ok pl) ∈ (obsAt tr j).fins →
+    ∃ i, i ≤ j ∧ evAt tr i = some (.readResp n pl)
+
+/-- A call never completes with the "written" result of a notification or with a garbled payload. -/
+def P_c01Unparsable (tr : Trace) : Prop :=
+  ∀ j n r, FTok.call n r ∈ (obsAt tr j).fins → r ≠ .okPlain ∧ ∀ s, r ≠ .bad s
+
+/-- No caller panics (completes twice). -/
+def P_c01Panic (tr : Trace) : Prop := ∀ j n, FTok.call n .panic ∉ (obsAt tr j).fins
+
+/-- Once the session has terminated no started call stays blocked: it has finished or its goroutine is
+on its way (parked at a yield site / inside the transport Write). -/
+def P_c01Blocked (tr : Trace) : Prop :=
+  ∀ j, j < tr.length → (obsAt tr j).done = true → ∀ n, 1 ≤ n → n ≤ callNoAt tr j →
+    (finCall (obsAt tr j).fins n).isSome = true ∨ (obsAt tr j).callParked n = true
+
+/-- A call started after termination fails with the closed-connection error (or with its own
+context's error, if the harness cancelled its context). -/
+def P_c01Late (tr : Trace) : Prop :=
+  ∀ i, i < tr.length → evAt tr i = some .ecall → (before tr i).done = true →
+    ∀ j, i ≤ j → j < tr.length → ∀ r, finCall (obsAt tr j).fins (callNoAt tr i) = some r →
+      r = .closed ∨ (r = .ctx ∧ ∃ k, k ≤ j ∧ evAt tr k = some (.ectx (callNoAt tr i)))
+
+theorem lastObs_fins_mem {tr : Trace} {x : Label × Obs} {f : FTok} (h : f ∈ (lastObs tr).fins) :
+    0 < tr.length ∧ f ∈ (obsAt (tr ++ [x]) (tr.length - 1)).fins := by
+  have hl : 0 < tr.length := by
+    apply Nat.pos_of_ne_zero
+    intro h0
+    have : tr = [] := List.length_eq_zero_iff.mp h0
+    subst this
+    simp at h
+  rw [lastObs_eq hl] at h
+  exact ⟨hl, by rw [obsAt_snoc_lt (by omega)]; exact h⟩
+
+theorem sound_c01Twice (tr : Trace) (l : Label) (o : Obs) (n : Nat) (r r' : RTok)
+    (h : (monStepT (monAfter {} tr) l o).2 = some (.c01Twice n r r')) : ¬ P_c01Final (tr ++ [(l, o)]) := by
+  obtain ⟨m, _, h1, h2, h3⟩ := fires_of_step h
+  intro hP
+  obtain ⟨hl, h1⟩ := lastObs_fins_mem (x := (l, o)) h1
+  have := hP (tr.length - 1) tr.length n r (by omega) (len_lt_snoc _ _) h1
+  rw [obsAt_snoc_len, h2] at this
+  exact h3 (Option.some.inj this)
+
+theorem sound_c01Lost (tr : Trace) (l : Label) (o : Obs) (n : Nat)
+    (h : (monStepT (monAfter {} tr) l o).2 = some (.c01Lost n)) : ¬ P_c01Final (tr ++ [(l, o)]) := by
+  obtain ⟨m, _, r, h1, h2⟩ := fires_of_step h
+  intro hP
+  obtain ⟨hl, h1⟩ := lastObs_fins_mem (x := (l, o)) h1
+  have := hP (tr.length - 1) tr.length n r (by omega) (len_lt_snoc _ _) h1
+  rw [obsAt_snoc_len, h2] at this
+  cases this
+
+theorem sound_c01Foreign (tr : Trace) (l : Label) (o : Obs) (n pl : Nat)
+    (h : (monStepT (monAfter {} tr) l o).2 = some (.c01Foreign n pl)) : ¬ P_c01Own (tr ++ [(l, o)]) := by
+  obtain ⟨m, hm, h1, h2⟩ := fires_of_step h
+  intro hP
+  obtain ⟨i, _, hi⟩ := hP tr.length (len_lt_snoc _ _) n pl (by rw [obsAt_snoc_len]; exact h1)
+  exact h2 ((hm.sent n pl).mpr ⟨i, hi⟩)
+
+theorem sound_c01Unparsable (tr : Trace) (l : Label) (o : Obs) (n : Nat) (r : RTok)
+    (h : (monStepT (monAfter {} tr) l o).2 = some (.c01Unparsable n r)) : ¬ P_c01Unparsable (tr ++ [(l, o)]) := by
+  obtain ⟨m, _, h1, h2⟩ := fires_of_step h
+  intro hP
+  obtain ⟨h3, h4⟩ := hP tr.length n r (by rw [obsAt_snoc_len]; exact h1)
+  rcases h2 with h2 | ⟨s, h2⟩
+  · exact h3 h2
+  · exact h4 s h2
+
+theorem sound_c01Panic (tr : Trace) (l : Label) (o : Obs) (n : Nat)
+    (h : (monStepT (monAfter {} tr) l o).2 = some (.c01Panic n)) : ¬ P_c01Panic (tr ++ [(l, o)]) := by
+  obtain ⟨m, _, h1⟩ := fires_of_step h
+  intro hP
+  exact hP tr.length n (by rw [obsAt_snoc_len]; exact h1)
+
+theorem sound_c01Blocked (tr : Trace) (l : Label) (o : Obs) (n : Nat)
+    (h : (monStepT (monAfter {} tr) l o).2 = some (.c01Blocked n)) : ¬ P_c01Blocked (tr ++ [(l, o)]) := by
+  obtain ⟨m, hm, h1, h2, h3, h4, h5⟩ := fires_of_step h
+  intro hP
+  have := hP tr.length (len_lt_snoc _ _) (by rw [obsAt_snoc_len]; exact h1) n h2
+    (by rw [callNoAt_snoc_len, ← hm.ncalls]; exact h3)
+  rw [obsAt_snoc_len, h4, h5] at this
+  simp at this
+
+theorem sound_c01Late (tr : Trace) (l : Label) (o : Obs) (n : Nat) (r : RTok)
+    (h : (monStepT (monAfter {} tr) l o).2 = some (.c01Late n r)) : ¬ P_c01Late (tr ++ [(l, o)]) := by
+  obtain ⟨m, hm, h1, h2, h3, h4⟩ := fires_of_step h
+  intro hP
+  obtain ⟨i, hi, hd, hn⟩ := hm.late n h1
+  subst hn
+  have := hP i (evAt_some_lt hi) hi hd tr.length (evAt_snoc_le hi) (len_lt_snoc _ _) r
+    (by rw [obsAt_snoc_len]; exact h2)
+  rcases this with h5 | ⟨h5, k, _, hk⟩
+  · exact h3 h5
+  · exact h4 ⟨h5, (hm.ctxd _).mpr ⟨k, hk⟩⟩
+
 end Conn
